@@ -261,6 +261,11 @@ func (am *Machine) handleStateDkgResponsesAwaitConfirmations(o *client.Operation
 		if err = json.Unmarshal(decryptedDealBz, &deal); err != nil {
 			return fmt.Errorf("failed to unmarshal deal")
 		}
+		// a deal is its sender's: one that names another dealer (our own index included, which
+		// ProcessDeals skips) must not stand in for the sender's deal
+		if int(deal.Index) != entry.ParticipantId {
+			return fmt.Errorf("deal of participant %d names dealer %d", entry.ParticipantId, deal.Index)
+		}
 		dkgInstance.StoreDeal(entry.Username, &deal)
 	}
 
